@@ -32,6 +32,4 @@ namespace vf {
   VF_E T midpoint_##S(T a, T b) { return etl::midpoint(a, b); }
 VF_FLT(X)
 #undef X
-VF_E float floorf_f(float x) { return etl::floorf(x); }
-VF_E float ceilf_f(float x) { return etl::ceilf(x); }
 }
